@@ -2105,8 +2105,9 @@ class OpHarness:
         self.compare_traces(ctx, uid + "/out", w.trace("observer"), w.trace("spec_out"))
         if getattr(c, "reentrant", False):
             self.compare_down_calls(it, ctx, uid)
-        if c.elem == "source" or len(c.sources) > 1 or getattr(c, "timed", False) or getattr(c, "subjects", False) or c.families:
-            self.compare_subscriptions(it, ctx, uid, self.n_subs_before)
+        # (every contract: an operator that subscribes, releases or schedules something in a handler must do so exactly where its
+        # spec machine does)
+        self.compare_subscriptions(it, ctx, uid, self.n_subs_before)
         if getattr(c, "timed", False):
             s.fields["clock"] = IntSV(w.now_term)
         # the invariant is re-established by EVERY handler that leaves the operator running (a terminal notification of one
@@ -2556,9 +2557,9 @@ class OpHarness:
                 for slot in (0, 2):
                     paths = explore(lambda ctx, _f=fam, _k=slot: self.run_family_sync(ctx, _f, _k))
                     self._collect(paths)
-            if len(c.sources) > 1 or getattr(c, "late_subscribe", False):
+            if len(c.sources) > 1 or getattr(c, "late_subscribe", False) or getattr(c, "sync_subscribe", None):
                 for srcname in c.sources:
-                    for slot in (0, 2):
+                    for slot in getattr(c, "sync_subscribe", None) or (0, 2):
                         paths = explore(lambda ctx, _s=srcname, _k=slot: self.run_sync_subscribe(ctx, _s, _k))
                         self._collect(paths)
             for tname in getattr(c, "timers", {}):
